@@ -159,7 +159,7 @@ def canon_structure(dump, hoe):
     return progs.structure_coq(st)
 
 
-def coq_run(ctx, lib, name, shards, header, timeout=1500):
+def coq_run(ctx, lib, name, shards, header, timeout=3600):
     """shards: list of (prelude_text, [expr]). Returns per shard the parsed values (or an exception string)."""
     d = os.path.join(VERIF, "coq", lib)
     os.makedirs(os.path.join(d, "gen"), exist_ok=True)
@@ -220,7 +220,8 @@ class Judge:
         cbs.append(cb)
 
     def run(self):
-        nshard = 16
+        total = sum(len(e) for (_, e, _) in self.progs.values())
+        nshard = max(16, total // 60)      # bounded work per coqc run (reference chases are the expensive part)
         items = sorted(self.progs.items())
         shards = [([], [], []) for _ in range(nshard)]
         # balance by number of expressions
